@@ -172,6 +172,13 @@ class PluralityVeto(RankingElection):
             tiebreaks = {}
             new_scores = {c: s for c, s in prev_state.scores.items()}
 
+            # exhausted ballots stay in the profile as rankless placeholders, which the
+            # score-based tiebreaks cannot score
+            tiebreak_profile = PreferenceProfile(
+                ballots=tuple(b for b in profile.ballots if b.ranking),
+                candidates=profile.candidates,
+            )
+
             eliminated_cands = []
             if prev_state.round_number == 0:
                 eliminated_cands = [
@@ -187,7 +194,9 @@ class PluralityVeto(RankingElection):
                         if len(ballot.ranking[last_place]) > 1:
                             if self.tiebreak:
                                 tiebroken_ranking = tiebreak_set(
-                                    ballot.ranking[last_place], profile, self.tiebreak
+                                    ballot.ranking[last_place],
+                                    tiebreak_profile,
+                                    self.tiebreak,
                                 )
                             tiebreaks = {ballot.ranking[last_place]: tiebroken_ranking}
                         else:
